@@ -264,6 +264,7 @@ HXcreate(int32 file_id, uint16 tag, uint16 ref, const char *extern_file_name, in
             HGOTO_ERROR(DFE_BADOPEN, FAIL);
     }
     free(fname);
+    fname          = NULL;  /* the error cleanup below frees it too */
     extdir_changed = FALSE; /* set to TRUE when HXsetdir is called */
 
     /* Get a bare access record and special info structure */
